@@ -1,0 +1,8 @@
+//go:build verif
+
+package tsdb
+
+// VerifDefaultFieldValidator returns the validator shards use when
+// EngineOptions.FieldValidator is nil, so that the external verification harness can
+// wrap it (to pause a writer between validation and field creation).
+func VerifDefaultFieldValidator() FieldValidator { return defaultFieldValidator{} }
